@@ -17,7 +17,7 @@ THEOREMS = [
     "C15_never_stays_running_refuted_engine", "C15_never_stays_running_refuted_retries",
     "C15_never_stays_running_refuted_append", "C15_never_stays_running_refuted_idle_write",
     "C15_never_stays_running_partial", "C15_retry_budget", "C15_restart_finalizes", "C15_restart_fault_mislabels",
-    "C15_cancel_reflected_refuted", "C15_cancel_reflected_partial", "C15_budget_per_write",
+    "C15_cancel_reflected_refuted", "C15_cancel_reflected_partial", "C15_budget_per_write", "C15_late_request_keeps_outcome",
 ]
 LEAN_TARGETS = ["WfProps.C15"]
 EXPLANATION = (
@@ -161,6 +161,10 @@ HAND = [
     ["reset|1|500,3000", "start|1", "arm|uhs|1", "restart|stop:4|0|6", "start|2", "arm|uhs|2", "restart|nostate|0|6",
      "start|3", "ev|3|idle|0|0", "restart|fail:2|0|1", "idleclear|3", "restart|fail:2|1|1", "restart|idlereleased|0|1",
      "restart|timeout:9|0|1"],
+    # late deliveries: the external adapter's un-idle write after every kind of terminal status (and one hitting a store fault)
+    ["reset|1|500,3000", "start|1", "ev|1|idle|0|0", "idleclear|1", "ev|1|stop|7|0", "idleclear|1", "idleclear|1", "arm|uhs|1", "idleclear|1",
+     "idleclear|2", "start|2", "ev|2|failed|3|0", "idleclear|2", "start|3", "ev|3|cancelled|0|0", "idleclear|3", "start|4",
+     "ev|4|timedout|5|0", "idleclear|4", "idleclear|1"],
     ["reset|1|500,3000", "arm|upd|3", "start|1", "start|1", "arm|upd|2", "start|2", "uhs|2|running|_|_|s", "uhs|2|completed|4|_|u",
      "uhs|2|running|_|_|s", "uhs|1|failed|_|e1|u"],
 ]
